@@ -10,7 +10,7 @@ from ..model import AnalysisError
 from .. import types as T
 from ..report import Ob, bad, ok, unresolved
 from . import rule
-from .common import is_raise_of, method_calls
+from .common import is_raise_of, kw, method_calls
 
 
 def _run_lens(stmts, lens, is_target=None):
@@ -305,14 +305,29 @@ def total5(ctx) -> List[Ob]:
                     return "other:" + v
             return "undefined"
 
-        t_ins = [c for c in A.walk_no_nested(ast.Module(st.body, [])) if isinstance(c, ast.Call) and isinstance(c.func, ast.Attribute) and c.func.attr == "insert_SyntheticTail"]
-        e_ins = [c for c in A.walk_no_nested(ast.Module(st.body, [])) if isinstance(c, ast.Call) and isinstance(c.func, ast.Attribute) and c.func.attr == "insert_SyntheticExit"]
+        # an insertion through the typed wrapper or through insert_block(.., SyntheticTail / SyntheticExit)
+        # (forwarding wrappers are expanded at load time, sa/inline.py)
+        def _ins(cls_name: str):
+            found = []
+            for c in A.walk_no_nested(ast.Module(st.body, [])):
+                if not (isinstance(c, ast.Call) and isinstance(c.func, ast.Attribute)):
+                    continue
+                if c.func.attr == "insert_" + cls_name:
+                    found.append(c)
+                elif c.func.attr == "insert_block":
+                    bt = kw(c, "block_type", 3)
+                    if bt is not None and (A.dotted(bt) or "").split(".")[-1] == cls_name:
+                        found.append(c)
+            return found
+
+        t_ins = _ins("SyntheticTail")
+        e_ins = _ins("SyntheticExit")
         probs = []
         ot, oe = origin(r_tail), origin(r_exit)
         # tail side
         if t_ins:
             c = t_ins[0]
-            a = [A.unparse(x) for x in c.args]
+            a = [A.unparse(x) for x in c.args][:3]
             if ot != "fresh" or a[0] != r_tail:
                 probs.append(f"a tail block is inserted as {a[0]} but {r_tail} ({ot}) is returned as the tail")
             if a[1:] != [tails, exits]:
@@ -322,7 +337,7 @@ def total5(ctx) -> List[Ob]:
         # exit side
         if e_ins:
             c = e_ins[0]
-            a = [A.unparse(x) for x in c.args]
+            a = [A.unparse(x) for x in c.args][:3]
             want_pred = f"[{r_tail}]" if t_ins else tails
             if oe != "fresh" or a[0] != r_exit:
                 probs.append(f"an exit block is inserted as {a[0]} but {r_exit} ({oe}) is returned as the exit")
